@@ -54,10 +54,39 @@ fn copy_dir(from: &Path, to: &Path) {
     }
 }
 
+/// `eng=sample long=<n> trials=<t>|`: one key with ttl=1 and `n` keys with ttl=100 on a fresh File engine,
+/// clock + 2 s, `lease_background_cleanup`, read the short key — repeated on `t` fresh engines (the
+/// DashMap iteration order, hence the 10-entry sample of `may_have_expired_keys`, is random per instance).
+/// Output `miss` if in some trial the due key survived the cleanup, else `nomiss`.
+async fn exec_sample(f: &std::collections::HashMap<String, String>) -> String {
+    let long: u64 = f.get("long").expect("long").parse().unwrap();
+    let trials: u64 = f.get("trials").expect("trials").parse().unwrap();
+    std::fs::create_dir_all(TMP).unwrap();
+    let mut missed = false;
+    for _ in 0..trials {
+        verif_clock::set_ms(1000 * 1000);
+        let root = tempfile::tempdir_in(TMP).unwrap();
+        let (sm, _lease) = open("file", &root.path().join("sm")).await;
+        let mut chunk = vec![ApplyEntry { index: 1, term: 1, command: Command::Insert { key: key(0), value: val(1), ttl_secs: Some(1) } }];
+        for i in 1..=long {
+            chunk.push(ApplyEntry { index: i + 1, term: 1, command: Command::Insert { key: key(i), value: val(1), ttl_secs: Some(100) } });
+        }
+        sm.apply_chunk(&chunk).await.expect("apply");
+        verif_clock::set_ms(1002 * 1000);
+        sm.lease_background_cleanup().await.expect("cleanup");
+        if sm.get(&key(0)).expect("get").is_some() { missed = true; }
+        sm.close_storage();
+        if missed { break; }
+    }
+    verif_clock::clear();
+    if missed { "miss".into() } else { "nomiss".into() }
+}
+
 async fn exec_async(case: &str) -> String {
     let (hd, body) = case.split_once('|').expect("case");
     let f = fields(hd);
     let eng = f.get("eng").expect("eng").as_str();
+    if eng == "sample" { return exec_sample(&f).await; }
     let mut now: u64 = f.get("t0").expect("t0").parse().unwrap();
     verif_clock::set_ms(now * 1000);
     std::fs::create_dir_all(TMP).unwrap();
@@ -256,6 +285,31 @@ fn gen_scenario(r: &mut Rng, eng: &str, disrupt: bool) -> String {
     format!("eng={} t0={}|{}", eng, 1000 + r.below(3), ops.join(";"))
 }
 
+/// Graceful stop/restart cycles (persist -> reopen -> reload, twice or more) around an overwrite that
+/// empties or changes the lease table: a stale persisted TTL table must never come back.
+fn gen_restart_cycles(r: &mut Rng, eng: &str) -> String {
+    let k = 1 + r.below(2);
+    let t = *r.pick(&[2u64, 3, 5]);
+    let mut ops: Vec<String> = vec![format!("put,{},1,{}", k, t)];
+    if r.chance(1, 3) { ops.push(format!("put,{},4,{}", 3 - k, r.pick(&[1u64, 4, 9]))); }
+    ops.push(r.pick(&["restart", "srestart"]).to_string());
+    match r.below(5) {
+        0 => ops.push(format!("put,{},2,-", k)),
+        1 => ops.push(format!("cas,{},1,2", k)),
+        2 => { ops.push(format!("del,{}", k)); ops.push(format!("put,{},3,-", k)); }
+        3 => ops.push(format!("put,{},2,{}", k, t + 20)),
+        _ => ops.push(format!("del,{}", k)),
+    }
+    if r.chance(1, 3) { ops.push(format!("del,{}", 3 - k)); }
+    for _ in 0..1 + r.below(2) { ops.push(r.pick(&["restart", "srestart", "restart"]).to_string()); }
+    ops.push(format!("get,{}", k));
+    ops.push(format!("adv,{}", t + r.below(3)));
+    ops.push("cleanup".into());
+    ops.push(format!("get,{}", k));
+    if r.chance(1, 2) { ops.push("restart".into()); ops.push("cleanup".into()); ops.push(format!("get,{}", k)); }
+    format!("eng={} t0={}|{}", eng, 1000 + r.below(3), ops.join(";"))
+}
+
 /// all op lists over one key built from a small alphabet (thorough tier: small-scope enumeration)
 fn enumerate(eng: &str, out: &mut Vec<String>) {
     let alpha = ["put,1,1,1", "put,1,2,-", "put,1,3,2", "del,1", "cas,1,1,4", "cas,1,-,5", "adv,1", "adv,2", "cleanup"];
@@ -277,7 +331,10 @@ fn generate(r: &mut Rng, n: usize, tier: &str) -> Vec<String> {
     for i in 0..n {
         let eng = if i % 8 == 7 { "rocks" } else { "file" };
         let disrupt = i % 3 == 2;
-        if i % 2 == 0 {
+        if i % 8 == 3 || i % 16 == 6 {
+            // half of these on RocksDB (its TTL table is persisted on every graceful close)
+            out.push(gen_restart_cycles(r, if i % 16 == 3 || i % 16 == 6 { "rocks" } else { "file" }));
+        } else if i % 2 == 0 {
             out.push(gen_scenario(r, eng, disrupt));
         } else {
             let len = 3 + r.below(if disrupt { 14 } else { 18 }) as usize;
@@ -293,6 +350,7 @@ fn generate(r: &mut Rng, n: usize, tier: &str) -> Vec<String> {
     // exactly 10 leased keys: the 10-entry sample of may_have_expired_keys still sees every entry
     out.push(format!("eng=file t0=1000|{};put,11,1,1;adv,2;cleanup;get,11", (1..=9).map(|i| format!("put,{},1,100", i)).collect::<Vec<_>>().join(";")));
     out.push("eng=file t0=1000|put,1,1,4611686018427387903;adv,5;cleanup;get,1".into());
+    out.push("eng=sample long=9 trials=5|".into());
     if tier == "thorough" {
         enumerate("file", &mut out);
     }
